@@ -25,6 +25,8 @@ import (
 	"sort"
 	"strconv"
 	"strings"
+	"sync"
+	"sync/atomic"
 	"time"
 
 	"verifharness/ur"
@@ -67,6 +69,7 @@ type mcfg struct {
 	Alphabet  []string
 	MaxLen    int
 	MaxFaults int
+	Cover     bool // run with -coverage 1 and require every action of the model to have been taken
 }
 
 func (m mcfg) hasReq() bool {
@@ -99,21 +102,34 @@ var allKinds = []string{"S", "Smiss", "Snull", "Ka", "Kbc", "Kboth", "Kanull", "
 func modelConfigs(thorough bool) []mcfg {
 	if !thorough {
 		return []mcfg{
-			{"mix", []string{"S", "Mid", "Malt", "T0"}, 3, 1},
-			{"req", []string{"R", "Rm", "Rmnull", "U"}, 3, 1},
-			{"keys", []string{"Kboth", "Kanull", "N", "Mmiss", "Mid"}, 2, 1},
-			{"wide", allKinds, 2, 1},
+			{"mix", []string{"S", "Mid", "Malt", "T0"}, 3, 1, false},
+			{"req", []string{"R", "Rm", "Rmnull", "U"}, 3, 1, false},
+			{"keys", []string{"Kboth", "Kanull", "N", "Mmiss", "Mid"}, 2, 1, false},
+			{"wide", allKinds, 2, 1, false},
 		}
 	}
 	return []mcfg{
-		{"mix", []string{"S", "Mid", "Malt", "T0"}, 4, 1},
-		{"mix2", []string{"S", "Mid", "Malt", "T0"}, 3, 2},
-		{"req", []string{"R", "Rm", "Rmnull", "U"}, 4, 1},
-		{"req2", []string{"R", "Rm", "S"}, 3, 2},
-		{"keys", []string{"Ka", "Kbc", "Kboth", "Kanull", "Kb", "N", "Nbad"}, 3, 1},
-		{"batch", []string{"Mid", "Malt", "Mmiss", "Rm", "N"}, 3, 2},
-		{"wide", allKinds, 2, 2},
-		{"wide3", []string{"S", "Snull", "Kbc", "N", "Mid", "Malt", "R", "Rm", "U", "T0"}, 3, 1},
+		{"mix", []string{"S", "Mid", "Malt", "T0"}, 4, 1, false},
+		{"mix2", []string{"S", "Mid", "Malt", "T0"}, 3, 2, false},
+		{"req", []string{"R", "Rm", "Rmnull", "U"}, 4, 1, false},
+		{"req2", []string{"R", "Rm", "S"}, 3, 2, false},
+		{"keys", []string{"Ka", "Kbc", "Kboth", "Kanull", "Kb", "N", "Nbad"}, 3, 1, false},
+		{"batch", []string{"Mid", "Malt", "Mmiss", "Rm", "N"}, 3, 2, false},
+		{"wide", allKinds, 2, 2, false},
+		{"wide3", []string{"S", "Snull", "Kbc", "N", "Mid", "Malt", "R", "Rm", "U", "T0"}, 3, 1, false},
+	}
+}
+
+// bigConfigs are checked exhaustively without export (VIEW without the completion order).
+func bigConfigs(thorough bool) []mcfg {
+	if !thorough {
+		return []mcfg{{"cover", []string{"S", "Smiss", "Mid", "Malt", "Rm", "R", "U", "T0"}, 2, 1, true}}
+	}
+	return []mcfg{
+		{"mix44", []string{"S", "Mid", "Malt", "T0"}, 4, 2, false},
+		{"req43", []string{"R", "Rm", "Rmnull", "S"}, 4, 2, false},
+		{"all3", allKinds, 3, 1, false},
+		{"cover", []string{"S", "Smiss", "Mid", "Malt", "Rm", "R", "U", "T0"}, 2, 1, true},
 	}
 }
 
@@ -309,7 +325,10 @@ func (e *emitted) scenario(id string, rnd *rand.Rand, dup []int) *vlib.Scenario 
 		for _, k := range keys {
 			s.Order = append(s.Order, "?"+k) // all calls are in flight together
 		}
-		s.Order = append(s.Order, keys...)
+		for _, k := range keys {
+			s.Order = append(s.Order, k, k+"#ret") // the call has returned before the next one is released
+		}
+		plan["c20:ret"] = ur.Outcome{K: "on"}
 	}
 	return s
 }
@@ -589,8 +608,11 @@ func linesOf(jobs map[string]*job) func(*vlib.Scenario) [][]byte {
 
 // ---- main ----------------------------------------------------------------------------------
 
+var modelActions = []string{"Build", "Finish", "GroupStart", "BatchNext", "BatchCall", "BatchReturn", "ZipStep", "GroupDone",
+	"EntityFail", "EntityCall", "EntityReturn"}
+
 func runMC(c *vlib.Check, m mcfg, cfg string, inline bool, workers int, wantOK bool) *vlib.TLCResult {
-	res, err := vlib.RunTLC(vlib.TLCOpts{Module: "Entities", Config: cfg, Workers: workers, CfgEdit: m.edit(inline),
+	res, err := vlib.RunTLC(vlib.TLCOpts{Module: "Entities", Config: cfg, Workers: workers, CfgEdit: m.edit(inline), Coverage: m.Cover,
 		Scratch: vlib.Work("C20", fmt.Sprintf("mc-%s-%s-%v", strings.TrimSuffix(cfg, ".cfg"), m.Name, inline)), Timeout: 15 * time.Minute})
 	if err != nil {
 		vlib.Infra("tlc %s: %v", cfg, err)
@@ -621,45 +643,88 @@ func main() {
 	}
 	fmt.Fprintf(os.Stderr, "[c20] %d probe variants generated and compiled in %.0fs\n", len(vs), time.Since(t0).Seconds())
 
-	// 2. model checking + export
+	// 2. model checking + export. Per alphabet: the export run (pinned model with the completion
+	// order in the state; it checks TypeOK / OwnIndexOnly / CorrectModuloKnown on a superset of the
+	// states of MC_Entities.cfg) and the repaired design against the property itself; the bigger
+	// MC-only configurations follow. At most 4 TLC workers at any time.
 	mcs := modelConfigs(thorough)
-	var ems []*emitted
+	type mcJob struct {
+		m      mcfg
+		cfg    string
+		inline bool
+		res    *vlib.TLCResult
+	}
+	var mjobs []*mcJob
 	for _, m := range mcs {
-		inl := []bool{true}
+		mjobs = append(mjobs, &mcJob{m: m, cfg: "MC_Entities_emit.cfg", inline: true})
 		if m.hasReq() {
-			inl = []bool{true, false}
+			mjobs = append(mjobs, &mcJob{m: m, cfg: "MC_Entities_emit.cfg", inline: false})
 		}
-		for _, in := range inl {
-			p := runMC(c, m, "MC_Entities.cfg", in, 4, true)
-			c.AddStates(p.Distinct, p.Generated)
-			f := runMC(c, m, "MC_Entities_fixed.cfg", in, 4, true)
-			c.AddStates(f.Distinct, f.Generated)
-			em := runMC(c, m, "MC_Entities_emit.cfg", in, 1, true)
-			n := 0
-			for _, ln := range em.Printed {
-				if len(ln) < 2 || ln[0] != '"' {
-					continue
-				}
-				inner, err := strconv.Unquote(ln)
-				if err != nil {
-					continue
-				}
-				var e emitted
-				if err := json.Unmarshal([]byte(inner), &e); err != nil || e.Bout == nil {
-					continue
-				}
-				e.Cfg = m.Name
-				ems = append(ems, &e)
-				n++
+		mjobs = append(mjobs, &mcJob{m: m, cfg: "MC_Entities_fixed.cfg", inline: true})
+	}
+	{
+		sem := make(chan struct{}, 4)
+		var wg sync.WaitGroup
+		for _, mj := range mjobs {
+			wg.Add(1)
+			go func(mj *mcJob) {
+				defer wg.Done()
+				sem <- struct{}{}
+				defer func() { <-sem }()
+				mj.res = runMC(c, mj.m, mj.cfg, mj.inline, 1, true)
+			}(mj)
+		}
+		wg.Wait()
+	}
+	var ems []*emitted
+	for _, mj := range mjobs {
+		c.AddStates(mj.res.Distinct, mj.res.Generated)
+		if mj.cfg != "MC_Entities_emit.cfg" {
+			fmt.Fprintf(os.Stderr, "[c20] model %-6s repaired design: Correct holds on %d states (%.0fs)\n", mj.m.Name, mj.res.Distinct, mj.res.WallS)
+			continue
+		}
+		n := 0
+		for _, ln := range mj.res.Printed {
+			if len(ln) < 2 || ln[0] != '"' {
+				continue
 			}
-			if n == 0 {
-				vlib.Infra("TLC exported no behaviours for %s", m.Name)
+			inner, err := strconv.Unquote(ln)
+			if err != nil {
+				continue
 			}
-			fmt.Fprintf(os.Stderr, "[c20] model %-6s inline=%-5v pinned %d states, repaired %d states, %d (scenario, order) behaviours exported\n", m.Name, in, p.Distinct, f.Distinct, n)
+			var e emitted
+			if err := json.Unmarshal([]byte(inner), &e); err != nil || e.Bout == nil {
+				continue
+			}
+			e.Cfg = mj.m.Name
+			ems = append(ems, &e)
+			n++
+		}
+		if n == 0 {
+			vlib.Infra("TLC exported no behaviours for %s", mj.m.Name)
+		}
+		fmt.Fprintf(os.Stderr, "[c20] model %-6s inline=%-5v pinned tree: CorrectModuloKnown holds on %d states, %d (scenario, order) behaviours exported (%.0fs)\n",
+			mj.m.Name, mj.inline, mj.res.Distinct, n, mj.res.WallS)
+	}
+	for _, m := range bigConfigs(thorough) {
+		p := runMC(c, m, "MC_Entities.cfg", true, 4, true)
+		c.AddStates(p.Distinct, p.Generated)
+		f := runMC(c, m, "MC_Entities_fixed.cfg", true, 4, true)
+		c.AddStates(f.Distinct, f.Generated)
+		fmt.Fprintf(os.Stderr, "[c20] model %-6s (exhaustive only) pinned %d states, repaired %d states (%.0fs)\n", m.Name, p.Distinct, f.Distinct, p.WallS+f.WallS)
+		if m.Cover {
+			for _, r := range []*vlib.TLCResult{p, f} {
+				for _, a := range modelActions {
+					if r.ActionCount[a] == 0 {
+						vlib.Infra("vacuous: action %s of Entities was never taken in configuration %s", a, m.Name)
+					}
+				}
+			}
+			c.Set("tlc_coverage", "every action of Entities taken in configuration "+m.Name+" (pinned and repaired)")
 		}
 	}
 	// the pinned algorithm against the property itself must fail (regression of the specification)
-	cex := runMC(c, mcfg{"cex", []string{"Mid", "Malt"}, 2, 1}, "MC_Entities_cex.cfg", true, 1, false)
+	cex := runMC(c, mcfg{"cex", []string{"Mid", "Malt"}, 2, 1, false}, "MC_Entities_cex.cfg", true, 1, false)
 	if cex.OK || !strings.Contains(cex.Output, "Invariant Correct is violated") {
 		vlib.Infra("MC_Entities_cex: the pinned model no longer violates Correct (specification changed?)\n%s", cex.Violation)
 	}
@@ -722,6 +787,11 @@ func main() {
 	c.Set("scenarios_distinct", len(nScen))
 	c.Set("behaviours_exported", len(ems))
 	c.Set("replay_schedule_drift_notes", drift)
+	c.Set("completion_order_realised", realised.Load())
+	c.Set("completion_order_not_realised", notRealised.Load())
+	if r, n := realised.Load(), notRealised.Load(); r < 9*(r+n)/10 {
+		vlib.Infra("vacuous: only %d of %d replays realised the prescribed completion order", r, r+n)
+	}
 
 	// 3b. -race build: a sample of the behaviours, any race report is a violation
 	{
@@ -754,15 +824,19 @@ func main() {
 		c.Set("race_behaviours", len(jobs))
 	}
 
-	// 4. (B) trace validation, per variant mode (ReqInline differs)
+	// 4. (B) trace validation, per variant (ReqInline differs). Each behaviour's trace is validated
+	// on one variant (rotating). Traces are packed (packSize behaviours per unit handed to
+	// vlib.ValidateBatchWith, whose TLC runs take 160 units) - a rejected pack is re-validated
+	// trace by trace.
+	lines := linesOf(jobsByID)
 	for _, f := range fvs {
+		if c.Violations() >= 20 {
+			fmt.Fprintf(os.Stderr, "[c20] trace validation skipped: the replay already reported the maximum number of violations\n")
+			break
+		}
 		var scs []*vlib.Scenario
 		for i, j := range allOK {
-			if j.Variant != f.V.Name {
-				continue
-			}
-			// quick tier: each behaviour's trace is validated on one variant (rotating)
-			if !thorough && i%len(fvs) != indexOf(fvs, f.V.Name) {
+			if j.Variant != f.V.Name || i%len(fvs) != indexOf(fvs, f.V.Name) {
 				continue
 			}
 			scs = append(scs, j.S)
@@ -770,29 +844,64 @@ func main() {
 		if len(scs) == 0 {
 			continue
 		}
-		m := mcfg{"trace", []string{"S"}, 4, 2}
+		m := mcfg{"trace", []string{"S"}, 4, 2, false}
+		pinEdit := m.edit(f.Inline)
+		fixEdit := func(cfg string) string {
+			cfg = pinEdit(cfg)
+			for _, k := range []string{"FixFirstRep", "FixShort", "FixNilReq"} {
+				cfg = strings.Replace(cfg, k+" = FALSE", k+" = TRUE", 1)
+			}
+			return cfg
+		}
 		t1 := time.Now()
-		rej, err := vlib.ValidateBatchWith(c, vlib.TLCOpts{Module: "EntitiesTrace", Config: "EntitiesTrace.cfg", CfgEdit: m.edit(f.Inline)}, nil, scs,
-			linesOf(jobsByID), vlib.Work("C20", "tv-"+f.V.Name))
+		const packSize = 10
+		packs := map[string][]*vlib.Scenario{}
+		var units []*vlib.Scenario
+		for i := 0; i < len(scs); i += packSize {
+			hi := i + packSize
+			if hi > len(scs) {
+				hi = len(scs)
+			}
+			u := &vlib.Scenario{ID: fmt.Sprintf("pack-%s-%d", f.V.Name, i), Variant: f.V.Name}
+			packs[u.ID] = scs[i:hi]
+			units = append(units, u)
+		}
+		packLines := func(u *vlib.Scenario) [][]byte {
+			var out [][]byte
+			for _, s := range packs[u.ID] {
+				out = append(out, lines(s)...)
+			}
+			return out
+		}
+		quiet := vlib.NewCheck("C20", "model_checking") // counts of the packed runs are re-attributed below
+		rejP, err := vlib.ValidateBatchWith(quiet, vlib.TLCOpts{Module: "EntitiesTrace", Config: "EntitiesTrace.cfg", CfgEdit: pinEdit}, nil, units, packLines,
+			vlib.Work("C20", "tv-"+f.V.Name))
 		if err != nil {
 			vlib.Infra("trace validation %s: %v", f.V.Name, err)
 		}
+		accepted := len(scs)
+		var suspects []*vlib.Scenario
+		for _, r := range rejP {
+			accepted -= len(packs[r.Scenario.ID])
+			suspects = append(suspects, packs[r.Scenario.ID]...)
+		}
+		c.AddTraces(int64(accepted))
+		var rej, still []vlib.Rejection
+		if len(suspects) > 0 {
+			rej, err = vlib.ValidateBatchWith(c, vlib.TLCOpts{Module: "EntitiesTrace", Config: "EntitiesTrace.cfg", CfgEdit: pinEdit}, nil, suspects, lines,
+				vlib.Work("C20", "tvs-"+f.V.Name))
+			if err != nil {
+				vlib.Infra("trace validation %s: %v", f.V.Name, err)
+			}
+		}
 		// a trace the pinned model rejects may be the repaired behaviour: ask the repaired model
-		var still []vlib.Rejection
 		if len(rej) > 0 {
 			var again []*vlib.Scenario
 			for _, r := range rej {
 				again = append(again, r.Scenario)
 			}
-			fixEdit := func(cfg string) string {
-				cfg = m.edit(f.Inline)(cfg)
-				for _, k := range []string{"FixFirstRep", "FixShort", "FixNilReq"} {
-					cfg = strings.Replace(cfg, k+" = FALSE", k+" = TRUE", 1)
-				}
-				return cfg
-			}
-			still, err = vlib.ValidateBatchWith(c, vlib.TLCOpts{Module: "EntitiesTrace", Config: "EntitiesTrace.cfg", CfgEdit: fixEdit}, nil, again,
-				linesOf(jobsByID), vlib.Work("C20", "tvfix-"+f.V.Name))
+			still, err = vlib.ValidateBatchWith(c, vlib.TLCOpts{Module: "EntitiesTrace", Config: "EntitiesTrace.cfg", CfgEdit: fixEdit}, nil, again, lines,
+				vlib.Work("C20", "tvfix-"+f.V.Name))
 			if err != nil {
 				vlib.Infra("trace validation (repaired model) %s: %v", f.V.Name, err)
 			}
@@ -804,6 +913,90 @@ func main() {
 			c.Violate("entities|trace-rejected|"+strings.Join(j.E.Reps, ","),
 				fmt.Sprintf("Entities (pinned and repaired) does not admit the observed execution on %s\nrepresentations=%s outcomes=%v batch=%v\n%s", f.V.Name, rb, j.E.Out, j.E.Bout, r.Describe()), r.Scenario)
 		}
+	}
+
+	// 5. self-test of the binding: corrupted copies of accepted traces must be rejected
+	{
+		var pick []*job
+		for _, j := range allOK {
+			if len(j.E.Devs) == 0 && len(j.E.Reps) >= 2 && len(j.E.Order) >= 2 && j.E.Reps[0] != j.E.Reps[1] && j.E.Errs > 0 {
+				pick = append(pick, j)
+				if len(pick) == 3 {
+					break
+				}
+			}
+		}
+		if len(pick) < 3 {
+			if c.Violations() > 0 {
+				c.Finish()
+			}
+			vlib.Infra("self-test: no suitable traces")
+		}
+		base := linesOf(jobsByID)
+		corrupt := func(s *vlib.Scenario) [][]byte {
+			orig := jobsByID[strings.TrimSuffix(strings.TrimSuffix(strings.TrimSuffix(s.ID, "#swap"), "#drop"), "#idx")]
+			ls := base(orig.S)
+			var out [][]byte
+			switch {
+			case strings.HasSuffix(s.ID, "#swap"): // the response list with its first two elements exchanged
+				var r map[string]any
+				_ = json.Unmarshal(ls[len(ls)-1], &r)
+				l := r["list"].([]any)
+				l[0], l[1] = l[1], l[0]
+				b, _ := json.Marshal(r)
+				out = append(append(out, ls[:len(ls)-1]...), b)
+			case strings.HasSuffix(s.ID, "#drop"): // one Err event dropped
+				done := false
+				for _, ln := range ls {
+					if !done && strings.Contains(string(ln), `"e":"Err"`) {
+						done = true
+						continue
+					}
+					out = append(out, ln)
+				}
+			default: // a resolver call with the key of another representation
+				done := false
+				for _, ln := range ls {
+					if !done && (strings.Contains(string(ln), `"e":"Start"`) || strings.Contains(string(ln), `"e":"BStart"`)) {
+						var r map[string]any
+						_ = json.Unmarshal(ln, &r)
+						if _, ok := r["i"]; ok {
+							r["i"] = r["i"].(float64) + 1
+						} else {
+							ks := r["ks"].([]any)
+							ks[0] = ks[0].(float64) + 1
+						}
+						ln, _ = json.Marshal(r)
+						done = true
+					}
+					out = append(out, ln)
+				}
+			}
+			return out
+		}
+		var bad []*vlib.Scenario
+		for i, sfx := range []string{"#swap", "#drop", "#idx"} {
+			bad = append(bad, &vlib.Scenario{ID: pick[i].S.ID + sfx, Variant: pick[i].Variant})
+		}
+		quiet := vlib.NewCheck("C20", "model_checking")
+		inl := map[string]bool{}
+		for _, f := range fvs {
+			inl[f.V.Name] = f.Inline
+		}
+		nrej := 0
+		for _, b := range bad {
+			m := mcfg{"trace", []string{"S"}, 4, 2, false}
+			rej, err := vlib.ValidateBatchWith(quiet, vlib.TLCOpts{Module: "EntitiesTrace", Config: "EntitiesTrace.cfg", CfgEdit: m.edit(inl[b.Variant])}, nil,
+				[]*vlib.Scenario{b}, corrupt, vlib.Work("C20", "selftest"+b.ID[strings.Index(b.ID, "#")+1:]))
+			if err != nil {
+				vlib.Infra("self-test: %v", err)
+			}
+			nrej += len(rej)
+		}
+		if nrej != len(bad) {
+			vlib.Infra("self-test: TLC accepted %d of %d corrupted traces - the trace specification does not bind", len(bad)-nrej, len(bad))
+		}
+		c.Set("trace_selftest", "3 corrupted traces (response elements swapped, error event dropped, call key of another representation) rejected")
 	}
 
 	c.Set("rule", "TLC enumerates (MC_Entities_emit.cfg) every representation list of length 0..MaxLen over an alphabet of representation kinds "+
@@ -935,8 +1128,30 @@ func evaluate(c *vlib.Check, j *job, bin string, drift *int) bool {
 	if key, detail := judge(j, o); key != "" {
 		c.Violate(key, detail, s)
 	}
+	if j.Dup == nil {
+		// non-vacuity of the schedule: did the calls return in the prescribed order?
+		var got []string
+		for _, ev := range s.Result.Events {
+			if ev.E == "End" {
+				got = append(got, ev.P)
+			}
+		}
+		var want []string
+		for _, k := range s.Order {
+			if !strings.HasPrefix(k, "?") && !strings.HasSuffix(k, "#ret") {
+				want = append(want, k)
+			}
+		}
+		if strings.Join(got, " ") == strings.Join(want, " ") {
+			realised.Add(1)
+		} else {
+			notRealised.Add(1)
+		}
+	}
 	return true
 }
+
+var realised, notRealised atomic.Int64
 
 func tailStr(s string, n int) string {
 	if len(s) > n {
